@@ -27,13 +27,13 @@ import (
 //      recovered state is verified again.
 
 type crashReplay struct {
-	Config   engine.Config `json:"config"`
-	Ops      []engine.Op   `json:"ops"`
-	Boundary int           `json:"boundary"`
-	Keep     []int         `json:"keep_chunks"`
-	TearIdx  int           `json:"tear_chunk"`
-	Tear     int           `json:"tear_bytes"`
-	Detail   string        `json:"detail"`
+	Config   engine.Config       `json:"config"`
+	Ops      []engine.Op         `json:"ops"`
+	Boundary int                 `json:"boundary"`
+	Keep     []int               `json:"keep_chunks"`
+	TearIdx  int                 `json:"tear_chunk"`
+	Tear     int                 `json:"tear_bytes"`
+	Detail   string              `json:"detail"`
 	Faults   []simdisk.FaultRule `json:"faults,omitempty"`
 }
 
